@@ -368,6 +368,11 @@ SUBS = {'agnostic': agnostic, 'apfl': apfl, 'hyp': hyp, 'mimelite': mimelite, 'i
 TIMEOUTS = {k: 3000 for k in SUBS}
 
 
+# sub-spaces re-executed under other interpreter configurations (mc.core.CONFIGS): {configuration: {sub-space: stride}}
+# quick tier: every stride-th planned case, thorough tier: all planned cases
+CONFIG_PASSES = {'x64': {'agnostic': 3, 'apfl': 3, 'hyp': 3, 'mimelite': 3, 'ignore_grads': 8}}
+
+
 def plan(ctx):
   th = ctx.tier == 'thorough'
   d = 3 if th else 2
